@@ -8,10 +8,6 @@ RULE = ("exhaustive: all 2^13 option flag words x short name {none,'f'} x defaul
         "words x 3 defaults; all names of length <= 4 over {a,Z,7,-,_,space,newline,e-acute} (+ '--'/'-' prefixed ones) as long "
         "name, short name, alias and argument name; conversion of ~230 boundary texts/values and seeded random ints/floats for "
         "4 types x nullable; non-trivial = distinct flag word / name / value text; distinct by case")
-THEOREMS = ["opt_accept_iff", "opt_normal_form", "arg_accept_iff", "arg_normal_form", "conv_typed", "conv_int_roundtrip", "conv_bool_roundtrip",
-            "opt_validate_matches_source", "arg_validate_matches_source", "abs_validate_matches_source",
-            "opt_defaults_matches_source", "arg_defaults_matches_source", "abs_defaults_matches_source",
-            "flag_constants_match_source", "source_opt_flags_accept_iff", "source_arg_flags_accept_iff"]
 TRUSTED = ["float(text) values and float text round trip are CPython's (model carries floats as text); int()/float() grammars modelled for ASCII digits",
            "harness/translate.py (fail-closed translator of a pure subset of Python, driven by ast; its reading of that subset and the "
            "declared int/bool types are trusted) regenerates coq/theories/Generated/GenFlags.v from the flag constants and "
